@@ -287,6 +287,15 @@ func newL1Env(n int) *l1env {
 	return e
 }
 
+// live lists the addresses that accept connections, for the model's environment.
+func (e *l1env) live() string {
+	var s []string
+	for _, b := range e.pool {
+		s = append(s, hx([]byte(b.addr)))
+	}
+	return strings.Join(s, ",")
+}
+
 type procResult struct {
 	obs      string
 	panicked string
